@@ -217,6 +217,9 @@ def correspond(ctx, case, drv, d, name, m1, m2, seed):
             attrs = []
             for a in G.ATTRS:
                 val = getattr(v, a)
+                if isinstance(val, list) and any(isinstance(e, ca.MX) for e in val):
+                    # array attribute with symbolic elements: save_model treats the list as one MX (00f122e)
+                    val = ca.vertcat(*[ca.MX(e) for e in val])
                 if isinstance(val, ca.MX):
                     dep = (not val.is_constant()) and bool(ca.depends_on(val, pvec)) if m1.parameters else False
                     attrs.append({"k": "mx", "dep": dep, "at": G.eval_at_params(m1, val, pts)})
@@ -324,7 +327,7 @@ def gen_case_vecparam(rng):
 
 
 def gen_case_arraysym(rng):
-    """Separate stream (finding C19-F3): array attributes with symbolic elements."""
+    """Array attributes with symbolic elements in every case (finding C19-F3, fixed in 00f122e; also part of the main stream)."""
     gm = G.gen_model(rng, want=["array", "array-symbolic"])
     return {"name": gm["name"], "text": gm["text"], "features": gm["features"], "opts": G.gen_options(rng), "mode": "cache",
             "seed": rng.randrange(1000), "stream": "array-symbolic"}
